@@ -9,8 +9,9 @@ CONSTANTS
   DefaultCap = 2
   FinCaps <- MCFinCaps
   MaxOps = 6
+  WordBits = 0
   Bug = "none"
   MaxLog2 = 6
 VIEW View
-INVARIANTS Conservation FinishBound FinishHeaviest CapacityRespected TopNonEmpty WhaleIsTotal TypeOK AtomicMatches
+INVARIANTS Conservation FinishBound FinishHeaviest CapacityRespected TopNonEmpty WhaleIsTotal TypeOK NeverStuck AtomicMatches
 CHECK_DEADLOCK FALSE
